@@ -95,9 +95,34 @@ pub fn judge_case(case: &Case, tracing: Tracing, st: &mut Stats) -> CheckResult 
     Ok(())
 }
 
+pub const KNOWN_LAZY_BINDING: &str = "optimiser:binding-made-lazy-under-returned-lambda";
+
+pub const LAZY_BINDING_SOURCE: &str = "fn mk(a: Int) -> fn(Int) -> Int {\n  let x: Int = 100 / a\n  fn(p: Int) -> Int {\n    x + p\n  }\n}\n\npub fn entry(a: Int, call: Bool) -> Int {\n  let f: fn(Int) -> Int = mk(a)\n  if call {\n    f(1)\n  } else {\n    0\n  }\n}\n";
+
+/// Re-observes the recorded known finding on its fixed input: `mk(0)` is bound and never called;
+/// strict evaluation (and the program handed to the optimiser) aborts with a division by zero,
+/// the optimised program returns 0.
+pub fn probe_lazy_binding(st: &mut Stats) -> CheckResult {
+    st.eval();
+    let input = json!({"source": LAZY_BINDING_SOURCE, "args": ["I 0", "Constr 0 []"]});
+    let CompileOutcome::Ok(c) = c01::compile_entry(LAZY_BINDING_SOURCE, Tracing::All(TraceLevel::Silent)) else {
+        return Err(Failure::new("probe-does-not-compile", json!({"input": input})));
+    };
+    let args = vec![uplc::ast::Data::integer(0.into()), uplc::ast::Data::constr(0, vec![])];
+    let post = aik::eval_with_args(&c.program, &args).0;
+    let pre = c.pre.as_ref().map(|p| aik::eval_with_args(p, &args).0);
+    if let (Some(Outcome::Error(..)), Outcome::Value(_)) = (&pre, &post) {
+        return Err(Failure::new(KNOWN_LAZY_BINDING, json!({"input": input, "pre_optimisation": pre.as_ref().map(show), "post_optimisation": show(&post)})));
+    }
+    Ok(())
+}
+
 pub fn run(cx: &mut Cx) -> String {
     let tier = cx.tier;
     cx.shrink_iters = 0;
+    if !cx.is_replay() && cx.worker == 0 {
+        cx.direct("known-finding-probe:lazy-binding", &json!({"source": LAZY_BINDING_SOURCE}), probe_lazy_binding);
+    }
     let cfg = AikCfg::default();
     for (name, tracing, share) in [
         ("pairs-silent", Tracing::All(TraceLevel::Silent), 2u64),
@@ -106,6 +131,15 @@ pub fn run(cx: &mut Cx) -> String {
     ] {
         cx.prop(name, tier.of(5_000, 120_000) * share, 3000, |src, st| {
             let case = c01::gen_case(src, &cfg, 8);
+            c01::judge_and_shrink(case, st, &|c, st| judge_case(c, tracing, st))
+        });
+    }
+    // focus: possibly-throwing bindings captured by closures that are not called on every path,
+    // behind expect / if-else-fail guards (where the inliner's must-execute reasoning matters)
+    let cfg2 = AikCfg { closure_weight: 30, expect_weight: 6, abort_weight: 2, trace_weight: 0, cast_weight: 2, max_helpers: 2, max_depth: 4, ..AikCfg::default() };
+    for (name, tracing) in [("closures-silent", Tracing::All(TraceLevel::Silent)), ("closures-verbose", Tracing::All(TraceLevel::Verbose))] {
+        cx.prop(name, tier.of(4_000, 100_000), 3000, |src, st| {
+            let case = c01::gen_case(src, &cfg2, 8);
             c01::judge_and_shrink(case, st, &|c, st| judge_case(c, tracing, st))
         });
     }
